@@ -59,11 +59,53 @@ type Parser interface {
 	Parse(string) ([]Type, ParserError)
 }
 
+// nesting tracks how far the input read so far is from being a complete
+// statement: open blocks and array literals and an unterminated string literal.
+// Braces, brackets and quotes inside string literals and comments do not count.
+type nesting struct {
+	blocks   int
+	brackets int
+	inString bool
+}
+
+func (n *nesting) scan(line string) {
+	for i := 0; i < len(line); i++ {
+		c := line[i]
+
+		if n.inString {
+			switch c {
+			case '\\':
+				i++ // the escaped character
+			case '"':
+				n.inString = false
+			}
+			continue
+		}
+
+		switch c {
+		case '"':
+			n.inString = true
+		case ';':
+			return // comment until the end of the line
+		case '{':
+			n.blocks++
+		case '}':
+			n.blocks--
+		case '[':
+			n.brackets++
+		case ']':
+			n.brackets--
+		}
+	}
+}
+
+func (n nesting) complete() bool {
+	return n.blocks == 0 && n.brackets == 0 && !n.inString
+}
+
 // Loop is the repl-loop.
 func Loop(r lineReader, p Parser, vm *vm.Type, doOut bool) {
-	blocksOpen := 0
-	quotesOpen := 0
-	bracketsOpen := 0
+	open := nesting{}
 	input := ""
 	sep := ""
 
@@ -73,13 +115,11 @@ func Loop(r lineReader, p Parser, vm *vm.Type, doOut bool) {
 			break
 		}
 
-		blocksOpen += strings.Count(line, "{") - strings.Count(line, "}")
-		quotesOpen += strings.Count(line, "\"") - strings.Count(line, "\\\"")
-		bracketsOpen += strings.Count(line, "[") - strings.Count(line, "]")
+		open.scan(line)
 		input += sep + line
 		sep = "\n"
 
-		if blocksOpen == 0 && quotesOpen%2 == 0 && bracketsOpen == 0 {
+		if open.complete() {
 			processInput(input, p, vm, doOut)
 			sep = ""
 			input = ""
